@@ -111,13 +111,19 @@ def cases(tier, seed):
             rich = tier == "thorough"
             per_dim = [IX.dim_candidates(s, rich=rich or i >= len(batch)) for i, s in enumerate(shape)]
             if len(batch) >= 1:
-                per_dim[: len(batch)] = [IX.dim_candidates(s, rich=False)[:8] for s in batch]
+                # batch dimensions: ints and slices, plus index tensors (a permutation of the whole batch, a repeated element, a
+                # shorter selection): the kernel's batched parameters have to follow the same index
+                def _bc(s_):
+                    c_ = IX.dim_candidates(s_, rich=False)
+                    return c_[:8] + [e for e in c_ if isinstance(e, list) and e[0] == "t"][1:4]
+
+                per_dim[: len(batch)] = [_bc(s) for s in batch]
             combos = [list(c) for c in itertools.product(*per_dim) if sum(1 for e in c if isinstance(e, list) and e[0] == "t") <= 1]
             extra = []
             for c in itertools.product(*per_dim[-2:]):
                 if sum(1 for e in c if isinstance(e, list) and e[0] == "t") <= 1:
                     extra.append(["..."] + list(c))
-            for c in per_dim[0][:6]:
+            for c in per_dim[0][:6] + ([e for e in per_dim[0] if isinstance(e, list) and e[0] == "t"] if len(batch) >= 1 else []):
                 extra.append([c])
                 extra.append([c, "..."])
             cap = (150 if tier == "quick" else 2500)
